@@ -363,6 +363,57 @@ pub fn stress(seed: u64, runs: usize, dir: &str, copies: usize) {
     println!("{}", json!({"ev":"eof"}));
 }
 
+/// trace ctrbig <seed> <dir>: records given by run lengths (one of more than 2^16 letters, one homopolymer k-mer occurring
+/// more than 2^17 times), counted in one chunk and in several; judged from the runs alone (RunLength.tla)
+pub fn big(seed: u64, dir: &str) {
+    let mut rng = Rng::new(seed);
+    for (i, k) in [5usize, 16, 31, 11].iter().enumerate() {
+        let k = *k;
+        let plans: Vec<Vec<(u8, u64)>> = vec![
+            vec![(0, 140_000 + rng.below(500)), (1, 66_000 + rng.below(500)), (4, 31 + rng.below(5)), (2, 31 + rng.below(50)), (3, 70_000 + rng.below(50))],
+            vec![(3, 31 + rng.below(10)), (0, 31 + rng.below(10))],
+            vec![(2, 68_000 + rng.below(10))],
+        ];
+        let seqs: Vec<Vec<u8>> = plans
+            .iter()
+            .map(|p| {
+                let mut s = Vec::new();
+                for &(c, n) in p {
+                    for _ in 0..n {
+                        s.push(render_class(c, &mut rng, true));
+                    }
+                }
+                s
+            })
+            .collect();
+        let inp = format!("{}/ctr_in.fa", dir);
+        write_fasta(&inp, &seqs);
+        let od = fresh_dir(dir);
+        // 0: the default ceiling (one chunk); otherwise ceilings giving a few chunks
+        let limit = [0u64, 0, 150_000, 1_000_000][i];
+        let threads = 1 + rng.below(8) as usize;
+        let res = std::panic::catch_unwind(|| {
+            let mut c = CountComputer::new(inp.clone(), od.clone(), k);
+            c.set_threads(threads);
+            if limit > 0 {
+                c.set_max_memory(mem_for_limit(limit));
+            }
+            c.count();
+            c.merge(true);
+        });
+        let recs: Vec<Vec<Vec<u64>>> = plans.iter().map(|p| p.iter().map(|&(c, n)| vec![c as u64, n]).collect()).collect();
+        match res {
+            Ok(()) => println!(
+                "{}",
+                json!({"ev":"ctrbig","k":k,"recs":recs,"limit":limit,"threads":threads,
+                       "lines":decode_counts(&format!("{}/kmers.counts", od), false),"temps":list_temps(&od).len()})
+            ),
+            Err(_) => println!("{}", json!({"ev":"crash","kind":"panic"})),
+        }
+    }
+    println!("{}", json!({"ev":"eof"}));
+}
+
 /// ctrlib <in> <outdir> <k> <threads> <limit> <delete> <acgt>: CountComputer through the library with a tiny memory ceiling
 /// (chunks / partitions the command line cannot reach); no hooks, for run histories (C17)
 pub fn ctrlib(inp: &str, od: &str, k: usize, threads: usize, limit: u64, delete: bool, acgt: bool) {
